@@ -144,6 +144,32 @@ Proof. destruct k; reflexivity. Qed.
 Lemma z_of_st_blocked s : (z_of_st s =? 2)%Z = true -> s = Blocked.
 Proof. destruct s; cbn; intros H; try discriminate; reflexivity. Qed.
 
+Lemma z_of_st_cases s : z_of_st s = 0%Z \/ z_of_st s = 1%Z \/ z_of_st s = 2%Z.
+Proof. destruct s; cbn; auto. Qed.
+
+(* the "success while blocked" check of [probe_run] never fires on a counter step *)
+Lemma unblock_check c (t b : bool) : cinv c ->
+  t && b && (z_of_st (st c) =? 2)%Z &&
+  (z_of_st (st (if t then record_result c b else c)) =? 2)%Z = false.
+Proof.
+  intros Hi. destruct t; [|reflexivity]. destruct b; [|reflexivity]. cbn [andb].
+  destruct (Z.eqb_spec (z_of_st (st c)) 2) as [E|]; [|reflexivity]. cbn [andb].
+  apply Z.eqb_eq in E. apply z_of_st_blocked in E.
+  destruct (success_unblocks_l c Hi E) as (Hs & _). rewrite Hs. reflexivity.
+Qed.
+
+Lemma unblock_check_opt o (t b : bool) run : pinv o run ->
+  t && b && (fst (cview_of o) =? 2)%Z &&
+  (fst (cview_of (match o with
+                  | Some c => if t then Some (record_result c b) else Some c
+                  | None => None end)) =? 2)%Z = false.
+Proof.
+  destruct o as [c|]; intros H.
+  - destruct H as (Hi & _). pose proof (unblock_check c t b Hi) as U.
+    destruct t; cbn [cview_of fst] in *; exact U.
+  - destruct t, b; reflexivity.
+Qed.
+
 Lemma probe_run_model k ops : forall p run i,
   pinv (sel k p) run ->
   probe_run k (nN (sel k p)) (fst (cview_of (sel k p))) run i (dtrace p ops) = [].
@@ -191,6 +217,10 @@ Proof.
         with (fst (if k then cview_of (fst p') else cview_of (snd p'))).
       rewrite sel_view'.
       pose proof (record_sel k p a b) as Hsel. fold p' in Hsel.
+      assert (Hc : a_pub a && akind k a && b && (fst (cview_of (sel k p)) =? 2)%Z &&
+                   (fst (cview_of (sel k p')) =? 2)%Z = false)
+        by (rewrite Hsel; exact (unblock_check_opt _ _ _ _ Hinv)).
+      rewrite Hc.
       replace (nN (sel k p)) with (nN (sel k p'))
         by (rewrite Hsel; destruct (sel k p); [destruct (a_pub a && akind k a); cbn [nN]; [apply record_cN|]|]; reflexivity).
       apply IH. rewrite Hsel. destruct (sel k p) as [c|]; [|exact I].
@@ -206,6 +236,10 @@ Proof.
     assert (Hsel : sel k p1 = match sel k p with
                               | Some c => if Bool.eqb w (negb k) then Some (record_result c b) else Some c
                               | None => None end) by apply direct_sel.
+    assert (Hc : Bool.eqb w (negb k) && b && (fst (cview_of (sel k p)) =? 2)%Z &&
+                 (fst (cview_of (sel k p1)) =? 2)%Z = false)
+      by (rewrite Hsel; exact (unblock_check_opt _ _ _ _ Hinv)).
+    rewrite Hc.
     replace (nN (sel k p)) with (nN (sel k p1))
       by (rewrite Hsel; destruct (sel k p); [destruct (Bool.eqb w (negb k)); cbn [nN]; [apply record_cN|]|]; reflexivity).
     apply IH. rewrite Hsel. destruct (sel k p) as [c|]; [|exact I].
